@@ -590,7 +590,6 @@ func c04SerialiserComplete(c *Ctx, r *Report) {
 	}
 }
 
-
 // stageClassificationRule (C04-R4 / C01-R2): which vocabulary a stage is read with - the
 // aggregation / core tables that type $limit, $skip ... as Exempt, or the Atlas Search tables -
 // is decided per stage: wherever the stage walker is applied to a value, its search flag is
